@@ -22,9 +22,10 @@ C01Verdict(rec) ==
       ELSE IF rec.hdr.desc # d.desc THEN Fail(0, "hdr.description")
       ELSE IF rec.hdr.ttl # d.ttl THEN Fail(0, "hdr.interval")
       ELSE IF Len(rec.f) # Len(d.fields) THEN Fail(0, "fields.count")
-      ELSE LET idx == SelectSeq([k \in 1..Len(d.fields) |-> k],
-                                LAMBDA k : FieldVerdict(d.fields[k], rec.p, rec.f[k]) # "ok")
-           IN [j \in 1..Len(idx) |-> [f |-> idx[j], c |-> FieldVerdict(d.fields[idx[j]], rec.p, rec.f[idx[j]])]]
+      ELSE LET offs == EffOff(d, rec.p)
+               FV(k) == FieldVerdict(At(d.fields[k], offs[k]), rec.p, rec.f[k])
+               idx == SelectSeq([k \in 1..Len(d.fields) |-> k], LAMBDA k : FV(k) # "ok")
+           IN [j \in 1..Len(idx) |-> [f |-> idx[j], c |-> FV(idx[j])]]
   ELSE LET sel == Select(rec.pgn, rec.p) IN
     IF sel # 0 /\ AllInRange(Defs[sel], rec.p) THEN Fail(0, "must-return") ELSE Ok
 
